@@ -26,7 +26,9 @@ def corpus():
         mk("statement ok retry 3 backoff 1s\nselect 1\n", [["err", "boom"]]),                 # D4
         mk("control resultmode valuewise\n\nquery II\nselect 1\n----\n", [["rows", "II", [["1", "2"]]]]),   # D5
         mk("statement error\nselect 1\n", [["rows", "I", [["1"]]]]),                          # D6
-        mk("query TT\nselect 1\n----\n", [["rows", "TT", [["x", " y"]]]]),               # D12
+        mk("query TT\nselect 1\n----\n", [["rows", "TT", [["x", "\u00a0y"]]]]),          # D12 (the second value begins with U+00A0)
+        mk("statement ok\n\n", [["complete", 0]]),                                           # D19: empty SQL line at the end of the file
+        mk("statement ok\nselect 1\n\nstatement count 5\n\n\n\n", [["complete", 0], ["complete", 2]]),   # D19
     ]
 
 
@@ -84,6 +86,19 @@ def execute(cases, tier):
             spec = "contradicts L1 (C06): a second update changes the file"
         elif any(e[0].endswith(".temp") for e in o["listing1"]):
             spec = "contradicts L1: temporary files left behind"
+        d19 = False
+        if spec and "no longer parses" in spec:
+            # known finding D19: some file of the tree ends (blank lines aside) in a record with an empty SQL / command line
+            from props import C05
+            stack, done = [[]], []
+            for r in vlib.norm(o["parse"][1]):
+                if r[0] == "begin-include":
+                    stack.append([])
+                elif r[0] == "end-include":
+                    done.append(stack.pop())
+                else:
+                    stack[-1].append(r)
+            d19 = any(C05.dangling_end(f) for f in done + stack)
         cats["L1=%s" % ("ok" if spec is None else "violated")] += 1
         if problem or spec:
             d = {"case": c, "impl": {k: o.get(k) for k in ("update1", "run", "listing1", "listing2", "parse_after")},
@@ -92,6 +107,9 @@ def execute(cases, tier):
             if spec and not problem and flags:
                 d["known"] = KNOWN_IDS.get(flags[0])
                 cats["known=%s" % d["known"]] += 1
+            elif spec and not problem and d19:
+                d["known"] = "D19"
+                cats["known=D19"] += 1
             if problem and not spec:
                 d["spec"] = None
                 d["note"] = problem
